@@ -326,3 +326,27 @@ def validate_trace(workdir, module, trace_path, cfg=None, timeout=1800, depth_fi
         raise Infra("TLC error while validating trace with %s:\n%s" % (module, r.out[-3000:]))
     clean_tlc_dir(workdir)
     return tr
+
+
+def hoist_truth(events, nkeys=4):
+    """Copy each run's final projection into its reset line (reads earlier in the run are judged against it)."""
+    empty = {"lock": [{"ts": 0, "primary": 0, "kind": "None"} for _ in range(nkeys)], "writes": [[] for _ in range(nkeys)]}
+    last_reset = None
+    for e in events:
+        if e.get("ev") == "reset":
+            last_reset = e
+            e["truth"], e["hastruth"] = empty, False
+        elif e.get("ev") == "final" and last_reset is not None:
+            last_reset["truth"], last_reset["hastruth"] = e["proj"], True
+    return events
+
+
+def denull(x):
+    """JSON null (a nil Go slice) -> empty list; TLC's Json module has no null."""
+    if x is None:
+        return []
+    if isinstance(x, dict):
+        return {k: denull(v) for k, v in x.items()}
+    if isinstance(x, list):
+        return [denull(v) for v in x]
+    return x
